@@ -7,8 +7,8 @@ from . import core
 from . import c09_kernel as K
 
 PROP = "C09"
-LEAN_TARGETS = ["Asynkit.Props.C09", "Asynkit.Lemmas.GenEqC09", "Asynkit.Lemmas.GenEqC15"]
-PROPS_FILES = ["Asynkit/Props/C09.lean", "Asynkit/Lemmas/GenEqC09.lean", "Asynkit/Lemmas/GenEqC15.lean"]
+LEAN_TARGETS = ["Asynkit.Props.C09", "Asynkit.Lemmas.GenEqC09", "Asynkit.Lemmas.GenEqC15", "Asynkit.Lemmas.GenEqKernelStd"]
+PROPS_FILES = ["Asynkit/Props/C09.lean", "Asynkit/Lemmas/GenEqC09.lean", "Asynkit/Lemmas/GenEqC15.lean", "Asynkit/Lemmas/GenEqKernelStd.lean"]
 DRIVERS = ["Kernel"]
 TRUSTED = [
     'Lean 4.33 kernel; axioms ⊆ {propext, Classical.choice, Quot.sound} (audited per theorem each run)',
@@ -23,8 +23,15 @@ TRUSTED = [
     '(Future, Task.__step/__wakeup/cancel, call_soon, the ready queue as a list), '
     'runnable_tasks()/blocked_tasks() as folds of the translated predicates, the C-task path of task_throw (not '
     'modelled)',
-    'CPython asyncio behaviour is modelled, not verified (3.12.1): Future callbacks scheduling, '
-    'Task.__step/__wakeup/cancel, _run_once popping the head of _ready, current_task/all_tasks',
+    "asyncio Future / Task semantics are no longer hand-modelled-and-trusted: the pure-Python reference "
+    "implementations asyncio/futures.py (Future) and asyncio/tasks.py (Task) of the running interpreter are "
+    "re-translated on every run (Gen/AsyncioKernel.lean: path, sha256, version recorded) and proved equal to the "
+    "Kernel model's events (Lemmas/GenEqKernelStd.lean).  Trusted instead: the C accelerator _asyncio computes what "
+    "tasks.py / futures.py compute (every run sends C tasks and Python tasks through the same model: "
+    "coverage.tasks_c / coverage.tasks_py); call_soon / _run_once popping the head of _ready (base_events.py); "
+    "current_task / all_tasks bookkeeping (_enter_task / _leave_task / _register_task as ctx / nt); contextvars; "
+    "the named abstractions of the translation (Gen.AsyncioKernel.abstractedAttributes, a Task's own Future "
+    "half = `done`, `_make_cancelled_error()` = a CancelledError)",
     "the harness's classification of ready handles (function identity of Task.__step/__wakeup, probed C wrapper "
     "types) as ground truth for 'is in the ready queue'",
     'priority loop observed with equal priorities only (ordering among different priorities is C10)',
@@ -255,6 +262,8 @@ def explore(ctx, cases, kinds=C09_KINDS, theorem="Asynkit.C09.partition", label=
         worlds.append(w)
         text = json.dumps(case, sort_keys=True)
         ctx.case(text, sorted(w.tags - TRIVIAL_TAGS))
+        ctx.extra["tasks_py"] = ctx.extra.get("tasks_py", 0) + w.kinds.count("p")
+        ctx.extra["tasks_c"] = ctx.extra.get("tasks_c", 0) + w.kinds.count("c")
         seen = set()
         for p in my_problems(w, kinds):
             prov = prov_key(p["kind"])
